@@ -207,6 +207,18 @@ Force(s, m, n, del) ==
 \* One chain.force(T, recompute, delete_data) of configuration rc, as a function on (held, directory, forced):
 \* mark T and everything downstream in that chain; drop their held values; optionally delete their results;
 \* optionally request every marked object again.
+\* Task.reset_data(): the object forgets the value it holds; nothing else changes (a forced object stays forced, the
+\* store is untouched).  The next request loads a visible result again, runs an in-memory task again.
+Reset(s, m, n) ==
+  /\ EnableForce /\ Tick
+  /\ slot[s].rcs # <<>> /\ m \in 1..Len(slot[s].rcs) /\ n \in Nodes[slot[s].rcs[m]]
+  /\ \E d \in {DescId[slot[s].rcs[m]][n]} :
+     /\ slot[s].held[d] # <<>>
+     /\ slot' = [slot EXCEPT ![s].held[d] = <<>>]
+  /\ lastruns' = <<>> /\ lasterr' = FALSE
+  /\ act' = Label("Reset", s, m, n, {}, FALSE, FALSE, 0)
+  /\ UNCHANGED <<disk, nrun, excuse>>
+
 ForceStage(h, dk, fc, rc, T, rec, del) ==
   LET marked == Down(rc, {DescId[rc][n] : n \in T})
       h1 == [d \in Ds |-> IF d \in marked THEN <<>> ELSE h[d]]
@@ -271,6 +283,7 @@ Next ==
         slot[s].rcs # <<>> /\ m <= Len(slot[s].rcs) /\ n \in Nodes[slot[s].rcs[m]] /\
         \E f \in {0} \cup (IF EnableFail THEN PullClosure(DescId[slot[s].rcs[m]][n]) ELSE {}) : Request(s, m, n, f)
   \/ EnableForce /\ \E s \in Slots, m \in 1..2, n \in AllNodes, del \in BOOLEAN : Force(s, m, n, del)
+  \/ EnableForce /\ \E s \in Slots, m \in 1..2, n \in AllNodes : Reset(s, m, n)
   \/ EnableForce /\ \E s \in Slots, m \in 1..2, rec \in BOOLEAN, del \in BOOLEAN :
         slot[s].rcs # <<>> /\ m <= Len(slot[s].rcs) /\
         \E T \in ForceSets[slot[s].rcs[m]] : ChainForce(s, m, T, rec, del)
